@@ -14,7 +14,7 @@
    (non-diagonal y_cov), where a refit prediction of the latent function is not the
    conditional distribution of y_i given the other observations.
 
-   `check_sel` instantiates Matrix/Selection.v at ListOps and returns the failing
+   `check_sel` instantiates Matrix/Selection.v at an executable instance and returns the failing
    obligations:
      0  an inverse failed its run-time verification
      1  self.L is lower triangular with positive diagonal and L L^T = K_xx + sig (t_f)
@@ -28,11 +28,15 @@
         -1/2 r^T A^-1 r with the exact A^-1 ; value and value-and-gradient variants
         returned the same numbers                                                  (t_q)
      8  det(K_xx + sig) (exact, Bareiss) = (prod_i L_ii)^2 to t_d (relative)
+     9  (small cases, s_cross) the model evaluated on ListOps and on BigOps agrees EXACTLY
+   The cases are evaluated on Matrix/BigOps.v (bigQ scalars; the gradients sum
+   fractions with unrelated denominators, which costs a 2000-bit gcd per addition on
+   binary Q); obligation 9 ties that instance to ListOps on every run.
    The score values are goals over R (`ml_goal`, `ml_closed_goal`, `loo_goal`,
    `loo_refit_goal`) built from the exact rationals `sel_*` below. *)
 From Coq Require Import List QArith Qabs Bool Arith Reals Qreals.
 From Interval Require Import Tactic.
-From IT Require Import Matrix.MxOps Matrix.ListOps Matrix.GpModel Matrix.Selection.
+From IT Require Import Matrix.MxOps Matrix.ListOps Matrix.BigOps Matrix.GpModel Matrix.Selection.
 From IT Require Import RealModel.SelectionValue.
 Import ListNotations.
 Open Scope Q_scope.
@@ -46,6 +50,7 @@ Record sel_case := SelCase {
   o_loo : Q; o_loog : Q; o_loo_grad_mean : qvec; o_loo_grad_cov : qvec;
   o_loo_mu : qvec; o_loo_sig : qvec;
   s_refit : bool;                 (* diagonal noise: the refit comparison applies *)
+  s_cross : bool;                 (* also evaluate on ListOps and demand exact agreement *)
   r_mu : qvec; r_var : qvec;
   t_f : Q; t_g : Q; t_h : Q; t_m : Q; t_v : Q; t_q : Q; t_d : Q; t_l : Q; t_r : Q
 }.
@@ -61,12 +66,59 @@ Fixpoint close_vec (tol : Q) (a b : qvec) : bool :=
   | _, _ => false
   end.
 
-Definition sel_Li (c : sel_case) : qmat := qinv (s_n c) (s_L c).
-Definition sel_LTi (c : sel_case) : qmat :=
-  qinv_checked (s_n c) (qtr (s_n c) (s_n c) (s_L c)) (qtr (s_n c) (s_n c) (sel_Li c)).
-Definition sel_Ai (c : sel_case) : qmat := qinv (s_n c) (s_A c).
+(* ---- everything the model computes for one case, on the executable instance E ---- *)
+Record sel_out := SelOut {
+  x_ok : bool;                                 (* the three inverses passed their verification *)
+  x_lmu : qvec; x_lvar : qvec;                 (* loo_mu (with gp_alpha), loo_var *)
+  x_q1 : Q; x_q2 : Q; x_q3 : Q;                (* ml_quad, mlg_quad, quad_closed *)
+  x_ml_gmean : qvec; x_ml_gmean_closed : qvec; (* (alpha*dmu).sum() ; alpha^T dmu with the exact A^-1 *)
+  x_ml_gcov : qvec; x_ml_gtrace : qvec;        (* 0.5 (Q*dK.T).sum() ; trace form with the exact A^-1 *)
+  x_loo_gmean : qvec; x_loo_gcov : qvec
+}.
 
-(* exact rationals for the value goals *)
+Section OnInstance.
+Variable E : exec.
+
+Definition sel_outputs (c : sel_case) : sel_out :=
+  let n := s_n c in
+  let L := s_L c in
+  let y := einj E n 1 (col_of (s_y c)) in let mu := einj E n 1 (col_of (s_mu c)) in
+  let Li := @minv E n (einj E n n L) in
+  let LiQ := eprj E n n Li in
+  let LTiQ := qinv_checked n (qtr n n L) (qtr n n LiQ) in    (* (L^T)^-1, verified by L^T X = I *)
+  let LTi := einj E n n LTiQ in
+  let Ai := @minv E n (einj E n n (s_A c)) in
+  let alpha := @gp_alpha_s E n Li LTi y mu in
+  let e11 (X : mx E 1 1) := entry11 (eprj E 1 1 X) in
+  let dmus := map (fun v => einj E n 1 (col_of v)) (s_dmu c) in
+  let dKs := map (einj E n n) (s_dK c) in
+  {| x_ok := shape_ok n n LiQ && shape_ok n n LTiQ && shape_ok n n (eprj E n n Ai) && negb (Nat.eqb n 0);
+     x_lmu := col_to_vec (eprj E n 1 (@loo_mu_s E n Li alpha y));
+     x_lvar := col_to_vec (eprj E n 1 (@loo_var_s E n Li));
+     x_q1 := e11 (@ml_quad_s E n Li y mu);
+     x_q2 := e11 (@mlg_quad_s E n Li y mu);
+     x_q3 := e11 (@quad_closed_s E n Ai y mu);
+     x_ml_gmean := map (fun dmu => e11 (@mlg_mean_grad_s E n Li y mu dmu)) dmus;
+     x_ml_gmean_closed := map (fun dmu => e11 (@ml_grad_mean_closed_s E n Ai y mu dmu)) dmus;
+     x_ml_gcov := map (fun dK => e11 (@mlg_cov_grad_s E n Li y mu dK)) dKs;
+     x_ml_gtrace := map (fun dK => e11 (@ml_grad_trace_s E n Ai y mu dK)) dKs;
+     x_loo_gmean := map (fun dmu => e11 (@loo_mean_grad_s E n Li y mu dmu)) dmus;
+     x_loo_gcov := map (fun dK => e11 (@loo_cov_grad_s E n Li y mu dK)) dKs |}.
+
+End OnInstance.
+
+Definition eq_vec (a b : qvec) : bool := close_vec 0 a b.
+(* the two executable instances agree EXACTLY on every model output *)
+Definition out_eqb (a b : sel_out) : bool :=
+  Bool.eqb (x_ok a) (x_ok b) && eq_vec (x_lmu a) (x_lmu b) && eq_vec (x_lvar a) (x_lvar b)
+  && Qeq_bool (x_q1 a) (x_q1 b) && Qeq_bool (x_q2 a) (x_q2 b) && Qeq_bool (x_q3 a) (x_q3 b)
+  && eq_vec (x_ml_gmean a) (x_ml_gmean b) && eq_vec (x_ml_gmean_closed a) (x_ml_gmean_closed b)
+  && eq_vec (x_ml_gcov a) (x_ml_gcov b) && eq_vec (x_ml_gtrace a) (x_ml_gtrace b)
+  && eq_vec (x_loo_gmean a) (x_loo_gmean b) && eq_vec (x_loo_gcov a) (x_loo_gcov b).
+
+(* exact rationals for the value goals (ListOps; these involve no gradient) *)
+Definition sel_Li (c : sel_case) : qmat := qinv (s_n c) (s_L c).
+Definition sel_Ai (c : sel_case) : qmat := qinv (s_n c) (s_A c).
 Definition sel_ml_quad (c : sel_case) : Q :=
   Qred (entry11 (@ml_quad_s ListOps (s_n c) (sel_Li c) (col_of (s_y c)) (col_of (s_mu c)))).
 Definition sel_quad_closed (c : sel_case) : Q :=
@@ -78,52 +130,43 @@ Definition sel_loo_quad (c : sel_case) : Q :=
 Definition sel_loo_var (c : sel_case) : qvec :=
   map Qred (col_to_vec (@loo_var_s ListOps (s_n c) (sel_Li c))).
 
-Definition check_sel_obligations (c : sel_case) : list bool :=
+Definition check_sel_obligations (E : exec) (c : sel_case) : list bool :=
   let n := s_n c in
   let A := s_A c in let L := s_L c in
-  let y := col_of (s_y c) in let mu := col_of (s_mu c) in
-  let Li := sel_Li c in let LTi := sel_LTi c in let Ai := sel_Ai c in
-  let alpha := @gp_alpha_s ListOps n Li LTi y mu in
-  let lvar := col_to_vec (@loo_var_s ListOps n Li) in
-  let lmu := col_to_vec (@loo_mu_s ListOps n Li alpha y) in
-  let q1 := entry11 (@ml_quad_s ListOps n Li y mu) in
-  let q2 := entry11 (@mlg_quad_s ListOps n Li y mu) in
-  let q3 := entry11 (@quad_closed_s ListOps n Ai y mu) in
+  let o := sel_outputs E c in
   let diagL := sel_diagL c in
   let pd := fold_right (fun x acc => x * acc) 1 diagL in
   let dt := sel_det c in
-  [ (* 0 *) shape_ok n n Li && shape_ok n n LTi && shape_ok n n Ai && negb (Nat.eqb n 0);
+  [ (* 0 *) x_ok o;
     (* 1 *) is_lower L && forallb (fun x => negb (Qle_bool x 0)) diagL
             && close_mx n n (t_f c) (qmul L (qtr n n L)) A;
-    (* 2 *) close_vec (t_g c) (map (fun dmu => entry11 (@mlg_mean_grad_s ListOps n Li y mu (col_of dmu))) (s_dmu c))
-                      (o_ml_grad_mean c)
-            && close_vec (t_g c) (map (fun dmu => entry11 (@ml_grad_mean_closed_s ListOps n Ai y mu (col_of dmu))) (s_dmu c))
-                      (o_ml_grad_mean c);
-    (* 3 *) close_vec (t_g c) (map (fun dK => entry11 (@mlg_cov_grad_s ListOps n Li y mu dK)) (s_dK c))
-                      (o_ml_grad_cov c)
-            && close_vec (t_g c) (map (fun dK => entry11 (@ml_grad_trace_s ListOps n Ai y mu dK)) (s_dK c))
-                      (o_ml_grad_cov c);
-    (* 4 *) close_vec (t_m c) lmu (o_loo_mu c) && close_vec (t_v c) lvar (map sqq (o_loo_sig c));
-    (* 5 *) close_vec (t_h c) (map (fun dmu => entry11 (@loo_mean_grad_s ListOps n Li y mu (col_of dmu))) (s_dmu c))
-                      (o_loo_grad_mean c)
-            && close_vec (t_h c) (map (fun dK => entry11 (@loo_cov_grad_s ListOps n Li y mu dK)) (s_dK c))
-                      (o_loo_grad_cov c);
+    (* 2 *) close_vec (t_g c) (x_ml_gmean o) (o_ml_grad_mean c)
+            && close_vec (t_g c) (x_ml_gmean_closed o) (o_ml_grad_mean c);
+    (* 3 *) close_vec (t_g c) (x_ml_gcov o) (o_ml_grad_cov c)
+            && close_vec (t_g c) (x_ml_gtrace o) (o_ml_grad_cov c);
+    (* 4 *) close_vec (t_m c) (x_lmu o) (o_loo_mu c) && close_vec (t_v c) (x_lvar o) (map sqq (o_loo_sig c));
+    (* 5 *) close_vec (t_h c) (x_loo_gmean o) (o_loo_grad_mean c)
+            && close_vec (t_h c) (x_loo_gcov o) (o_loo_grad_cov c);
     (* 6 *) negb (s_refit c)
-            || (close_vec (t_m c) lmu (r_mu c) && close_vec (t_v c) lvar (r_var c)
+            || (close_vec (t_m c) (x_lmu o) (r_mu c) && close_vec (t_v c) (x_lvar o) (r_var c)
                 && close_vec (t_m c) (o_loo_mu c) (r_mu c)
                 && close_vec (t_v c) (map sqq (o_loo_sig c)) (r_var c));
-    (* 7 *) close_q (t_q c) q1 q2 && close_q (t_q c) q1 q3
+    (* 7 *) close_q (t_q c) (x_q1 o) (x_q2 o) && close_q (t_q c) (x_q1 o) (x_q3 o)
             && close_q (t_l c) (o_ml c) (o_mlg c) && close_q (t_l c) (o_loo c) (o_loog c);
-    (* 8 *) close_q (t_d c * Qabs dt) dt (pd * pd) && negb (Qle_bool dt 0) ].
+    (* 8 *) close_q (t_d c * Qabs dt) dt (pd * pd) && negb (Qle_bool dt 0);
+    (* 9 *) negb (s_cross c) || out_eqb (sel_outputs ListExec c) o ].
 
-Definition check_sel (c : sel_case) : list nat := failing_obligations 0 (check_sel_obligations c).
+Definition check_sel (E : exec) (c : sel_case) : list nat :=
+  failing_obligations 0 (check_sel_obligations E c).
 
 Fixpoint flatten_sel (k : nat) (rs : list (list nat)) : list nat :=
   match rs with
   | [] => []
   | r :: rest => map (fun o => (k * 100 + o)%nat) r ++ flatten_sel (S k) rest
   end.
-Definition failing_sel (cs : list sel_case) : list nat := flatten_sel 0 (map check_sel cs).
+(* the run evaluates the cases on the fast instance; obligation 9 re-evaluates the
+   small ones (s_cross) on ListOps and demands exact agreement *)
+Definition failing_sel (cs : list sel_case) : list nat := flatten_sel 0 (map (check_sel BigExec) cs).
 
 (* ---- the score values: goals over R ------------------------------------------------ *)
 Open Scope R_scope.
